@@ -27,6 +27,7 @@ namespace mon
       const char* alphabet;   // NUL-free list given with explicit length
       std::size_t nalpha;
       const signed char* akinds;   // per registry id, for the variant compiled in (may be null)
+      const signed char* sels;     // parse-tree selector per registry id: 0 not selected, 1 store, 2 remove_content, 3 fold_one, 4 discard_empty
       unsigned salt;
       unsigned features;      // F_* below
       void ( *run )( const runreq&, runres& );
@@ -42,6 +43,8 @@ namespace mon
       int eolpol;             // 0 lf, 1 cr, 2 crlf, 3 lf_crlf, 4 cr_crlf
       int ctrl;               // bit0 enable-all, bit1 with unwind
       bool plain;
+      bool tree = false;
+      int selvariant = 0;
    };
 
    void set_registry( const reginfo* regs, std::size_t n, const char* const* custom_messages );
